@@ -562,6 +562,56 @@ fn explore_both(
     true
 }
 
+pub const MS_NONE: Obs = Obs::S("\u{0}none");
+
+/// What the method-syntax script of the glue (lib/e3.py `MS_SCRIPT`) must observe on a list `exp`.
+pub fn ms_expected(exp: &[Obs]) -> Vec<Obs> {
+    let mut m = Model { lo: 0, hi: exp.len() };
+    let mut v = Vec::new();
+    let o = |x: Option<usize>| x.map_or(MS_NONE, |i| exp[i].clone());
+    let l = |m: &Model| Obs::D((m.hi - m.lo) as i128);
+    v.push(l(&m));
+    let x = m.step(Op::Next);
+    v.push(o(x));
+    v.push(l(&m));
+    let x = m.step(Op::NextBack);
+    v.push(o(x));
+    v.push(l(&m));
+    v.push(l(&m));
+    v.push(l(&m));
+    let x = m.step(Op::Nth(1));
+    v.push(o(x));
+    v.push(l(&m));
+    let x = m.step(Op::NthBack(0));
+    v.push(o(x));
+    v.push(l(&m));
+    v.push(l(&m)); // count() of the rest
+    // fresh iterators
+    v.push(exp.last().cloned().unwrap_or(MS_NONE)); // last()
+    v.push(exp.last().cloned().unwrap_or(MS_NONE)); // rev().next()
+    v.push(Obs::D(exp.len() as i128)); // fold counting
+    v.push(exp.get(2).cloned().unwrap_or(MS_NONE)); // skip(2).next()
+    v.push(Obs::D(exp.len() as i128)); // len() of a fresh iterator
+    v
+}
+
+fn phase_ms(c: &mut Ctx, kind: &'static str, f: fn() -> Vec<Obs>, exp: &[Obs]) {
+    let want = ms_expected(exp);
+    let got = guard(f);
+    c.st.transitions += want.len() as u64;
+    match got {
+        Ok(g) if g == want => {}
+        Ok(g) => {
+            let k = (0..want.len().min(g.len())).find(|&i| want[i] != g[i]).unwrap_or(want.len().min(g.len()));
+            c.violation(kind, &format!("{kind}: method-call-syntax script, observation #{k} (len, next, len, next_back, len, size_hint.0, size_hint.1, nth(1), len, nth_back(0), len, count, last, rev.next, fold-count, skip(2).next, fresh len)"),
+                        &show_vec(&want), &show_vec(&g));
+        }
+        Err(p) => {
+            c.violation(kind, &format!("{kind}: method-call-syntax script"), &show_vec(&want), &format!("PANIC: {p}"));
+        }
+    }
+}
+
 pub fn phase_iter(c: &mut Ctx) {
     let s = c.s;
     let Some(mk) = s.iter else { return };
@@ -569,6 +619,9 @@ pub fn phase_iter(c: &mut Ctx) {
     let exp: Vec<Obs> = c.model.iter().map(|p| Obs::D(p.0)).collect();
     let x2 = (exp.len() as u32 + s.x2_extra).min(s.x2_cap);
     explore_both(c, "iter", "iter()", &|| mk(), &exp, s.x1_depth, x2, s.consumers);
+    if let Some(f) = s.iter_ms {
+        phase_ms(c, "iter", f, &exp);
+    }
     c.st.oc("iter:explored");
 }
 
@@ -579,6 +632,9 @@ pub fn phase_names(c: &mut Ctx) {
     let exp: Vec<Obs> = c.model.iter().map(|p| Obs::S(p.1)).collect();
     let x2 = (exp.len() as u32 + s.x2_extra).min(s.x2_cap);
     explore_both(c, "names", "names()", &|| mk(), &exp, s.x1_depth, x2, s.consumers);
+    if let Some(f) = s.names_ms {
+        phase_ms(c, "names", f, &exp);
+    }
     c.st.oc("names:explored");
     if let Some(z) = s.zip {
         let want: Vec<(i128, &'static str)> = c.model.iter().map(|p| (p.0, p.1)).collect();
